@@ -28,6 +28,7 @@ Inductive gval :=
 | GArray (elems : list gval)
 | GMap (str_any : bool) (isnil : bool) (id : nat)   (* str_any: the type is map[string]any *)
 | GPtr (isnil : bool) (id : nat)
+| GPtrTo (isnil : bool) (tid : nat) (pointee : gval)   (* a pointer to a struct of type tid *)
 | GFunc (isnil : bool) (id : nat)
 | GChan (isnil : bool) (id : nat)
 | GStruct (id : nat) (fields : list gval).
@@ -48,6 +49,7 @@ Fixpoint kind_of (v : gval) : rkind :=
   | GArray _ => RkArray
   | GMap _ _ _ => RkMap
   | GPtr _ _ => RkPtr
+  | GPtrTo _ _ _ => RkPtr
   | GFunc _ _ => RkFunc
   | GChan _ _ => RkChan
   | GStruct _ _ => RkStruct
